@@ -4,7 +4,7 @@
 use super::*;
 use crate::policy::verif_harness::{any_slfu, any_tinylfu, ghost_get, ghost_sum, slfu_sum, COST_MAX};
 use crate::policy::{PolicyPair, SampledLFU, TinyLFU};
-use crate::verif_env::{chan, mrec, HS};
+use crate::verif_env::{chan, kv, mrec, KVec, HS};
 use crate::verif_nd::{self as nd, harness, vassert, vcover};
 
 #[cfg(kani)]
@@ -27,7 +27,7 @@ pub(crate) fn mk_policy(admit: TinyLFU, costs: SampledLFU<HS>, metrics: Arc<Metr
 }
 
 /// native replay only: what the real `push` put on the policy's queue
-pub(crate) fn worker_try_recv(w: &PolicyProcessor<HS>) -> Option<Vec<u64>> {
+pub(crate) fn worker_try_recv(w: &PolicyProcessor<HS>) -> Option<KVec<u64>> {
     w.items_rx.try_recv().ok()
 }
 
@@ -61,7 +61,76 @@ pub(crate) fn contract_max_victims() -> usize {
 /// Contract stub for `LFUPolicy::add` (DESIGN 3.7), written over the same real `PolicyInner`:
 /// an over-approximation of every admission/eviction decision the real `add` can take.
 #[cfg(kani)]
-pub(crate) fn add_contract<S: BuildHasher + Clone + 'static>(p: &LFUPolicy<S>, key: u64, cost: i64) -> (Option<Vec<PolicyPair>>, bool) {
+pub(crate) fn add_contract_trivial<S: BuildHasher + Clone + 'static>(p: &LFUPolicy<S>, key: u64, cost: i64) -> (Option<KVec<PolicyPair>>, bool) {
+    let mut inner = p.inner.lock();
+    if inner.costs.update(&key, cost) {
+        return (None, false);
+    }
+    if nd::any_bool() {
+        inner.costs.increment(key, cost);
+        (None, true)
+    } else {
+        (None, false)
+    }
+}
+
+#[cfg(kani)]
+pub(crate) static mut CONTRACT_TRIVIAL: bool = false;
+/// "wiring" mode: add does not touch the policy at all and returns arbitrary outputs (an
+/// arbitrary verdict and an arbitrary list of <= 2 victim pairs, or no list); records its inputs
+#[cfg(kani)]
+pub(crate) static mut CONTRACT_WIRING: bool = false;
+#[cfg(kani)]
+pub(crate) static mut ADD_CALLS: usize = 0;
+#[cfg(kani)]
+pub(crate) static mut ADD_KEY: u64 = 0;
+#[cfg(kani)]
+pub(crate) static mut ADD_COST: i64 = 0;
+#[cfg(kani)]
+pub(crate) static mut ADD_OUT_ADDED: bool = false;
+#[cfg(kani)]
+pub(crate) static mut ADD_OUT_N: usize = 0;
+#[cfg(kani)]
+pub(crate) static mut ADD_OUT_KEYS: [u64; 2] = [0; 2];
+#[cfg(kani)]
+pub(crate) static mut ADD_OUT_COSTS: [i64; 2] = [0; 2];
+
+#[cfg(kani)]
+fn add_wiring(key: u64, cost: i64) -> (Option<KVec<PolicyPair>>, bool) {
+    unsafe {
+        ADD_CALLS += 1;
+        ADD_KEY = key;
+        ADD_COST = cost;
+        let added = nd::any_bool();
+        ADD_OUT_ADDED = added;
+        ADD_OUT_N = 0;
+        if nd::any_bool() {
+            return (None, added);
+        }
+        let n = nd::any_usize_in(0, 2);
+        let mut v: KVec<PolicyPair> = KVec::with_capacity(2);
+        let mut i = 0;
+        while i < n {
+            let k = nd::any_u64();
+            let c = nd::any_i64_in(0, COST_MAX);
+            ADD_OUT_KEYS[i] = k;
+            ADD_OUT_COSTS[i] = c;
+            v.push(PolicyPair { key: k, cost: c });
+            i += 1;
+        }
+        ADD_OUT_N = n;
+        (Some(v), added)
+    }
+}
+
+#[cfg(kani)]
+pub(crate) fn add_contract<S: BuildHasher + Clone + 'static>(p: &LFUPolicy<S>, key: u64, cost: i64) -> (Option<KVec<PolicyPair>>, bool) {
+    if unsafe { CONTRACT_WIRING } {
+        return add_wiring(key, cost);
+    }
+    if unsafe { CONTRACT_TRIVIAL } {
+        return add_contract_trivial(p, key, cost);
+    }
     let mut inner = p.inner.lock();
     let max_cost = inner.costs.get_max_cost();
     if cost > max_cost {
@@ -76,7 +145,7 @@ pub(crate) fn add_contract<S: BuildHasher + Clone + 'static>(p: &LFUPolicy<S>, k
         return (None, true);
     }
     // up to MAX_VICTIMS arbitrary residents are evicted (the solver picks the keys)
-    let mut victims = Vec::with_capacity(2);
+    let mut victims: KVec<PolicyPair> = KVec::with_capacity(2);
     let mut round = 0;
     while round < contract_max_victims() {
         let vk = nd::any_u64();
@@ -105,8 +174,7 @@ pub(crate) fn add_contract<S: BuildHasher + Clone + 'static>(p: &LFUPolicy<S>, k
 macro_rules! policy_harness {
     ([$($k:meta),* $(,)?] fn $name:ident() $body:block) => {
         harness! {
-            [kani::stub(std::sync::Arc::drop_slow, stubs::arc_drop_slow),
-             kani::stub(parking_lot::RawMutex::lock_slow, stubs::mutex_lock_slow),
+            [kani::stub(parking_lot::RawMutex::lock_slow, stubs::mutex_lock_slow),
              kani::stub(parking_lot::RawMutex::unlock_slow, stubs::mutex_unlock_slow),
              kani::stub(parking_lot::RawRwLock::lock_shared_slow, stubs::rw_lock_shared_slow),
              kani::stub(parking_lot::RawRwLock::lock_exclusive_slow, stubs::rw_lock_exclusive_slow),
@@ -114,6 +182,7 @@ macro_rules! policy_harness {
              kani::stub(parking_lot::RawRwLock::unlock_exclusive_slow, stubs::rw_unlock_exclusive_slow),
              kani::stub(crate::metrics::Metrics::add, mrec::add),
              kani::stub(crate::metrics::Metrics::is_op, mrec::is_op),
+             kani::stub(std::sync::Arc::drop_slow, stubs::arc_drop_slow),
              $($k),*]
             fn $name() $body
         }
@@ -134,7 +203,7 @@ policy_harness! {
         let k = nd::any_u64();
         let n = nd::any_usize_in(1, 3);
         let b = [nd::any_u64(), nd::any_u64(), nd::any_u64()];
-        let mut batch = Vec::with_capacity(3);
+        let mut batch: KVec<u64> = KVec::with_capacity(3);
         let mut cnt = 0i64;
         let mut i = 0;
         while i < n {
@@ -201,5 +270,122 @@ policy_harness! {
         }
         let (sum, _n, nonneg) = policy_sum(&p);
         vassert!(policy_used(&p) == sum && nonneg, "I-P: charged total equals the sum of per-entry charges");
+    }
+}
+
+// ------------------------------------------------------------------------------------------------
+// The REAL `LFUPolicy::add` from an arbitrary state (C01 admission clauses, C04 "room admits",
+// C07 rule). Residents < 5, so every resident is a sampled candidate and the rule can be asserted
+// on add's outputs and the real estimator without any observer hook.
+// ------------------------------------------------------------------------------------------------
+
+fn add_real(n_max: usize) {
+    let m = Arc::new(mrec::make(false));
+    let (s, ents) = any_slfu(n_max);
+    let used0 = ghost_sum(&ents);
+    let mc = s.get_max_cost();
+    let (p, _w) = mk_policy(any_tinylfu(1, 6), s, m);
+    let key = nd::any_u64();
+    let cost = nd::any_i64_in(0, COST_MAX);
+    let est_key = policy_estimate(&p, key);
+    let est = [
+        ents[0].map_or(0, |e| policy_estimate(&p, e.0)),
+        ents[1].map_or(0, |e| policy_estimate(&p, e.0)),
+        ents[2].map_or(0, |e| policy_estimate(&p, e.0)),
+    ];
+    let was_resident = ghost_get(&ents, key).is_some();
+    let (victims, added) = p.add(key, cost);
+    let used1 = policy_used(&p);
+    let (sum, _n, nonneg) = policy_sum(&p);
+    vassert!(used1 == sum && nonneg, "I-P: the charged total equals the sum of the per-entry charges after add");
+    if cost > mc {
+        vassert!(!added && victims.is_none() && used1 == used0, "an entry whose own cost exceeds max_cost is never admitted and nothing changes");
+        vcover!(mc < 0, "negative max_cost");
+    } else if was_resident {
+        vassert!(!added && victims.is_none(), "add of a resident key is an update, not an admission");
+        vassert!(p.cost(&key) == cost && used1 == used0 - ghost_get(&ents, key).unwrap() + cost, "the resident's charge is replaced");
+        vcover!(used1 > mc, "over budget after an in-place update");
+    } else if used0 + cost <= mc {
+        vassert!(added && victims.is_none(), "when there is room a new key is always admitted and nothing is evicted");
+        vassert!(used1 == used0 + cost && p.cost(&key) == cost, "the admitted key is charged its cost");
+        vcover!(used0 + cost == mc, "exact fit");
+    } else {
+        // no room: evictions and/or rejection
+        let v = victims.as_ref();
+        vassert!(v.is_some(), "without room the outcome reports the (possibly empty) victim list");
+        if added {
+            vassert!(used1 <= mc, "every admission of a new key re-establishes total <= max_cost");
+            vassert!(p.cost(&key) == cost, "the admitted key is charged its cost");
+        } else {
+            vassert!(!p.contains(&key), "a rejected key is not charged");
+        }
+        // which residents are gone, and the rule on each of them
+        let mut released = 0i64;
+        let mut min_surv = i64::MAX;
+        let mut gone = 0;
+        let mut i = 0;
+        while i < 3 {
+            if let Some((k, c)) = ents[i] {
+                if p.contains(&k) {
+                    vassert!(p.cost(&k) == c, "survivors keep their charge");
+                    if est[i] < min_surv {
+                        min_surv = est[i];
+                    }
+                } else {
+                    released += c;
+                    gone += 1;
+                    vassert!(est[i] <= est_key, "a victim is no more popular than the newcomer");
+                    // reported as a victim with its charge
+                    let mut listed = false;
+                    for pair in v.unwrap().iter() {
+                        if pair.key == k && pair.cost == c {
+                            listed = true;
+                        }
+                    }
+                    vassert!(listed, "every resident that lost its charge is reported as a victim with its cost");
+                }
+            }
+            i += 1;
+        }
+        // every victim is less popular (or equal) than every survivor: "least popular of the candidates"
+        let mut j = 0;
+        while j < 3 {
+            if let Some((k, _)) = ents[j] {
+                if !p.contains(&k) {
+                    vassert!(est[j] <= min_surv, "each victim is the least popular of the sampled candidates (no survivor is less popular)");
+                }
+            }
+            j += 1;
+        }
+        for pair in v.unwrap().iter() {
+            vassert!(ghost_get(&ents, pair.key).is_some(), "only residents are reported as victims");
+        }
+        vassert!(used1 == used0 - released + if added { cost } else { 0 }, "the charged total is released by exactly the victims' charges");
+        if !added {
+            vassert!(est_key < min_surv, "the newcomer is rejected exactly when it is strictly less popular than the least popular candidate");
+        }
+        if gone > 0 && added {
+            vassert!(used0 - released + cost <= mc, "evictions free enough room");
+        }
+        vcover!(added && gone == 2, "admitted after two evictions");
+        vcover!(!added && gone == 1, "rejected after an eviction");
+        vcover!(!added && gone == 0, "rejected at once");
+        vcover!(used0 > mc, "over-budget pre-state");
+    }
+    std::mem::forget(victims);
+    std::mem::forget(p);
+}
+
+policy_harness! {
+    [kani::unwind(8)]
+    fn c01_add_real_n2() {
+        add_real(2);
+    }
+}
+
+policy_harness! {
+    [kani::unwind(9)]
+    fn c01_add_real_n3() {
+        add_real(3);
     }
 }
